@@ -9,7 +9,7 @@ CFG = dict(
          "column a value from a lattice (missing, nil, bool, string, 10 integer widths around 0, 2^31, 2^53, 2^63, 2^64, float32/float64 incl. NaN, "
          "+-Inf, -0, 2^53+2) — executed through NewExprCondition.Evaluate, its parenthesised twin, the shortcut and the compiled program alone; "
          "opaque predicates (arithmetic, not, in, word operators, nil column ...); mutated texts for the recogniser; a sample through SQL WHERE with "
-         "EmitSync; distinct = distinct op line",
+         "EmitSync; distinct = distinct op line Added late: sibling literals differing in inner white space only; the condition objects of every second eval op have decided other rows (text, bool, NULL, absent, float32, int8) before the observed one. Every fifth case runs under WithHighPerformance (`preset high`), for C05/C06/C12/C13/C14/C16/C20 another fifth under WithLowLatency (`preset low`); every seventh case follows a noise prelude (failing statements, malformed rows, panicking sink / function in other instances).",
     assumptions=[
         "expr-lang v1.17.8 behaves as the table Model/CondGeneral.lean for `column OP literal` and &&/|| over them (int/int exact via int(x), any float => float64, "
         "string/string, every other pair: ==/!= false/true, ordering => error; left-to-right short circuit) — validated only by correspondence (parenthesised twin and compiled program on generated rows)",
